@@ -50,6 +50,36 @@ def socElem (up down : Nat → Nat → K) (soc : Nat → Nat → K) (i j : Nat) 
 
 end scalars
 
+/-! ### phonon frequencies and k.p corners -/
+
+/-- `Data_K.phonon_freq_from_square`: `e = sqrt(|E|); e[E < 0] = -e`, with `g` the square root on non-negative numbers -/
+def phononFreq {K : Type} [Neg K] [OfNat K 0] [LT K] [DecidableLT K] (g : K → K) (E : K) : K :=
+  if E < 0 then -(g (-E)) else g E
+
+/-- numpy `x % 1` -/
+def frac1 (x : Rat) : Rat := x - (x.floor : Rat)
+/-- `SystemKP.k_to_1BZ`: `(k + 0.5) % 1 - 0.5` -/
+def fold1 (x : Rat) : Rat := frac1 (x + 1 / 2) - 1 / 2
+
+def qadd (a b : QVec3) : QVec3 := (a.1 + b.1, a.2.1 + b.2.1, a.2.2 + b.2.2)
+def fracV (k : QVec3) : QVec3 := (frac1 k.1, frac1 k.2.1, frac1 k.2.2)
+def foldV (k : QVec3) : QVec3 := (fold1 k.1, fold1 k.2.1, fold1 k.2.2)
+
+/-- `Data_K_k.E_K_corners_*`: `self.system.Ham(k + v)` for `k` in `kpoints_all = (points_FFT + dK) % 1`, where `system.Ham`
+    folds its argument into the box `[-1/2, 1/2)` before calling the user's Hamiltonian `ham` -/
+def kpCorner {α : Type} (ham : QVec3 → α) (p dK v : QVec3) : α := ham (foldV (qadd (fracV (qadd p dK)) v))
+
+/-- direct evaluation of the k.p Hamiltonian at the corner k-point `p + dK + v` -/
+def kpDirect {α : Type} (ham : QVec3 → α) (p dK v : QVec3) : α := ham (foldV (qadd (qadd p dK) v))
+
+/-- exact square root of a rational perfect square (used by the driver only) -/
+def sqrtExact (x : Rat) : Rat := mkRat (Nat.sqrt x.num.natAbs) (Nat.sqrt x.den)
+
+/-- scalar quadratic k.p model `a0 + Σ a_i k_i + Σ b_i k_i²` with rational coefficients (driver) -/
+def polyHam (c : List Rat) (k : QVec3) : Rat :=
+  c.getD 0 0 + c.getD 1 0 * k.1 + c.getD 2 0 * k.2.1 + c.getD 3 0 * k.2.2
+    + c.getD 4 0 * k.1 * k.1 + c.getD 5 0 * k.2.1 * k.2.1 + c.getD 6 0 * k.2.2 * k.2.2
+
 /-! ### driver: Gaussian rationals; half steps dK/2 that are multiples of 1/4 -/
 open WB.IO WB.C01 WB.C02
 
@@ -88,6 +118,18 @@ def handle : List String → String
       let φ := cornerPhase (quarterAxis q.1) (quarterAxis q.2.1) (quarterAxis q.2.2) ix iy iz
       showListWith showGRat ";" ((gridPoints N).map (cornerPathOld (idftBox N) N (quarterChar dq) φ Rup (R.zip X)))
     | _, _, _, _, _, _, _ => "bad-op"
+  -- phonon_freq_from_square on rational perfect squares (with sign)
+  | ["phonon", es] =>
+    match parseRats? es with
+    | some E => showRats (E.map (phononFreq sqrtExact))
+    | none => "bad-op"
+  -- k.p corner energies of the scalar model polyHam: coefficients, FFT points p (list), dK, corner vectors v (list)
+  --   -> for every p: for every v: value     (p-blocks separated by '#')
+  | ["kpcorner", cs, ps, dk, vs] =>
+    match parseRats? cs, (parseRatss? ps).bind (·.mapM toQVec3?), (parseRats? dk).bind toQVec3?, (parseRatss? vs).bind (·.mapM toQVec3?) with
+    | some c, some P, some dK, some V =>
+      showListWith (fun p => showRats (V.map fun v => kpCorner (polyHam c) p dK v)) "#" P
+    | _, _, _, _ => "bad-op"
   | _ => "bad-op"
 
 end WB.C33
